@@ -9,6 +9,7 @@ use std::panic::{catch_unwind, AssertUnwindSafe};
 use vcommon::{fnv, jobj, jstr, Args, Report, Rng};
 
 struct QStats {
+    far_end: u64,
     queries: u64,
     multi_segment: u64,
     in_overlap: u64,
@@ -84,6 +85,16 @@ fn check_contig(
             pairs.push((a, b));
         }
     }
+    // "every pair of positions": ends far beyond the contig, up to the largest value of the type
+    // ("to the end" is commonly written as end = MAX); values above isize::MAX make an unclamped
+    // buffer reservation panic (catchable), the moderately large ones must simply be clamped
+    let far = [len + (1 << 20), u32::MAX as usize, (isize::MAX as usize) + 1, usize::MAX - 1, usize::MAX];
+    for &b in &far {
+        for a in [0usize, len / 2, len.saturating_sub(1), len, len + 1, b, b - 1] {
+            pairs.push((a, b));
+        }
+    }
+    st.far_end += (far.len() * 7) as u64;
     let mut fresh_every = 0usize;
     for (a, b) in pairs {
         st.queries += 1;
@@ -138,7 +149,7 @@ pub fn run(args: &Args, rep: &mut Report) {
     let dir = format!("{}/rg-{}-{}", scratch, std::process::id(), args.shard);
     std::fs::create_dir_all(&dir).unwrap();
     let only: Option<u64> = args.case.as_ref().and_then(|c| c.parse().ok());
-    let mut st = QStats { queries: 0, multi_segment: 0, in_overlap: 0, touch_rc: 0, empty_result: 0, beyond_end: 0 };
+    let mut st = QStats { far_end: 0, queries: 0, multi_segment: 0, in_overlap: 0, touch_rc: 0, empty_result: 0, beyond_end: 0 };
     for i in 0..n {
         if !args.mine(i) {
             continue;
@@ -193,9 +204,13 @@ pub fn run(args: &Args, rep: &mut Report) {
             if !o.ok() || txt != len.to_string() {
                 cli_err = Some((s.name.clone(), cname.clone(), format!("length: `ragc ctglen` printed {:?} (exit {:?}) for a contig of {} bases", txt, o.code, len)));
             }
-            for _ in 0..4 {
+            for qi in 0..6 {
                 let a = rng.usize(0, len + 1);
-                let b = rng.usize(0, len + 2);
+                let b = match qi {
+                    4 => u64::MAX as usize,
+                    5 => 1usize << 62, // an unclamped reservation of this size aborts the process
+                    _ => rng.usize(0, len + 2),
+                };
                 let o = cli::run(
                     std::process::Command::new(ragc)
                         .arg("getrange")
@@ -246,6 +261,7 @@ pub fn run(args: &Args, rep: &mut Report) {
         let _ = std::fs::remove_file(&path);
     }
     rep.count("range_queries", st.queries);
+    rep.count("queries_with_an_end_near_the_largest_integer", st.far_end);
     rep.count("queries_spanning_several_segments", st.multi_segment);
     rep.count("queries_starting_or_ending_in_an_overlap", st.in_overlap);
     rep.count("queries_on_contigs_with_reverse_complemented_segments", st.touch_rc);
